@@ -7,6 +7,9 @@ for d in driver kdriver; do
     ocamlfind ocamlopt -O2 -w -a -package str model.mli model.ml $d.ml -o $d 2>/dev/null || ocamlfind ocamlopt -w -a -package str model.mli model.ml $d.ml -o $d
   fi
 done
+if [ ! -x ddriver ] || [ dict.ml -nt ddriver ] || [ ddriver.ml -nt ddriver ]; then
+  ocamlfind ocamlopt -w -a -package str dict.mli dict.ml ddriver.ml -o ddriver
+fi
 for d in wdriver mdriver adriver; do
   if [ -f $d.ml ] && { [ ! -x $d ] || [ wire.ml -nt $d ] || [ $d.ml -nt $d ]; }; then
     ocamlfind ocamlopt -w -a -package str wire.mli wire.ml $d.ml -o $d
